@@ -34,7 +34,12 @@ META = dict(
          "differ only in digits / underscores, with `per v pl.x` (default doer inode), inline framer.me.frame.me.actor.me and "
          "framer.me.actor.me ipaths, `via x of actor`, `via nd of actor me per v z`; exact oracle: the actor-relative node is the "
          "name's segments per nameToPath's docstring (upper case letter starts a node, every other character kept); siblings never "
-         "alias; each doer renamed to names with / without digits and underscores changes exactly its own segments.",
+         "alias; each doer renamed to names with / without digits and underscores changes exactly its own segments.  Nested clone "
+         "family: wfa clones moot wfd (named tag or `as mine`), whose frame clones (named / `as mine`) or rears moot wfg; the leaf "
+         "uses every main-relative form (`of framer main`, `.y of framer main`, framer.main.y, `of frame main [of framer main]`, "
+         "frame.main.y, framer.main.frame.main.y) in put / copy / need / do via / do per; agreement oracle: the leaf's path equals "
+         "the path its main framer (the middle clone) gets for `y of framer` / `y of frame`; renaming oracle for outer framer, both "
+         "originals, both tags, all frames and the doer.",
     note="Inode prefixes are name-free, so oracle 2 is exact about names but says nothing about the literal inode segments; "
          "their layout is only checked for renaming invariance (oracle 1).  `as mine` insular clones (generated tags) and the "
          "`do .. as name via/per` parsing defect of C15 are avoided by writing `at enter` after the doer name.",
@@ -674,6 +679,120 @@ def check_actor(real, addr, p, case):
     p.sample(dict(doers=tokens, clause=clause, resolved=[r for _, r in orig[1]]), limit=2)
 
 
+# ----------------------------------------------------------------------------- two-level clone nesting, main-relative forms
+#
+# wfa clones moot wfd (the middle), whose frame clones (or rears) moot wfg (the leaf).  The leaf's main framer is itself a
+# clone, so its name <wfa>_<tag> differs from its tag.  Every main-relative form written in the leaf must land on the node
+# the middle clone addresses with `of framer me` / `of frame me`, and follow every renaming.
+
+NFORMS = [
+    ("of-framer-main",        "y of framer main",               "framer", False),
+    ("dot-of-framer-main",    ".y of framer main",              "framer", False),
+    ("in-framer-main",        "framer.main.y",                  "framer", True),
+    ("of-frame-main",         "y of frame main",                "frame",  False),
+    ("of-frame-main-framer-main", "y of frame main of framer main", "frame", False),
+    ("in-frame-main",         "frame.main.y",                   "frame",  False),
+    ("in-framer-frame-main",  "framer.main.frame.main.y",       "frame",  True),
+]
+NSLOTS = [
+    ("put-dst",    "put 1 into {REF}",                       "parm:destination", False),
+    ("copy-src",   "copy {REF} into .k.dst",                 "parm:source",      False),
+    ("need-state", "go me if {REF} == 1",                    "parm:state",       False),
+    ("do-via",     "do lit as dxa at enter via {REF}",       "attr:inode",       False),
+    ("do-per",     "do lit as dxa at enter per v {REF}",     "attr:v",           True),
+]
+NTAGS = [("named-named", "tgm", "tgl", "aux"), ("insular-insular", "mine", "mine", "aux"),
+         ("named-insular", "tgm", "mine", "aux"), ("insular-named", "mine", "tgl", "aux"),
+         ("named-reared", "tgm", "mine", "rear"), ("insular-reared", "mine", "mine", "rear")]
+
+
+def nested_program(t1, t2, inner, line):
+    src = ["house h", "init .k.src with value 1",
+           "framer wfa be active first hra", "frame hra", "  aux wfd as %s" % t1,
+           "framer wfb be active first hrc", "frame hrc",
+           "framer wfd be moot first hrd", "frame hrd"]
+    if inner == "aux":
+        src += ["  put 1 into y of framer", "  put 1 into y of frame", "  aux wfg as %s" % t2]
+    else:
+        src += ["  rear wfg as mine be aux in frame hrk", "  go hrk",
+                "frame hrk", "  put 1 into y of framer", "  put 1 into y of frame"]
+    src += ["framer wfg be moot first hre", "frame hre", "  " + line, ""]
+    return "\n".join(src)
+
+
+def nested_cases(tier):
+    out = []
+    for tg in NTAGS:
+        for slot in NSLOTS:
+            for form in NFORMS:
+                if slot[3] and not form[3]:
+                    continue
+                out.append((tg, slot, form))
+    return out
+
+
+def check_nested(real, addr, p, case):
+    (tname, t1, t2, inner), (sid, stext, skey, _), (fid, ref, kind, _) = case
+    if sid == "do-via":
+        ref = ref.replace("y", "yn")      # a node: must not collide with the middle clone's share y
+    line = stext.replace("{REF}", ref)
+    text = nested_program(t1, t2, inner, line)
+    ticks = RUN_TICKS if inner == "rear" else 0
+    tag = "nested|%s|%s|%s" % (tname, sid, fid)
+    rep = dict(script=text, line=line, run_ticks=ticks,
+               how="build with ioflo.base.building.Builder (reared leaf: run 3 ticks); wfa's clone of wfd is the leaf's main "
+                   "framer; compare the leaf's reference with the middle clone's `y of framer` / `y of frame` destination")
+    orig = observe(real, addr, text, ticks)
+    p.evaluations += 1
+    if orig[0] != "ok":
+        p.violation("%s|refused" % tag, tname, "`%s` in a clone nested in a clone could not be built: %s" % (line, orig[3]), rep)
+        return
+    mine = [v[0].split(" ", 1)[1] for k, v in sorted(orig[1].items()) if v[1] == line and k.split("/")[-1] == skey]
+    target_line = "put 1 into y of framer" if kind == "framer" else "put 1 into y of frame"
+    target = [v[0].split(" ", 1)[1] for k, v in sorted(orig[1].items()) if v[1] == target_line]
+    if len(mine) != 1 or len(target) != 1:
+        p.violation("%s|no-reference-found" % tag, tname, "expected one leaf reference and one middle reference, found %r / %r" % (mine, target), rep)
+        return
+    p.nontrivial(tag)
+    p.outcome("nested clones: built")
+    p.evaluations += 1
+    seen = mine[0][:-1] if (sid == "do-via" and mine[0].endswith(".yn")) else mine[0]
+    if seen != target[0]:
+        p.violation("%s|main-disagrees" % tag, tname,
+                    "leaf `%s` resolves to %s, but its main framer (the middle clone) addresses `%s` as %s" % (
+                        line, mine[0], target_line.split("into ")[1], target[0]),
+                    dict(rep, leaf=mine[0], main=target[0]))
+    ents = ["wfa", "wfd", "wfg", "hra", "hrd", "hre", ACTOR] + [t for t in (t1, t2) if t != "mine"] + (["hrk"] if inner == "rear" else [])
+    for old in ents:
+        rtext = rename_text(text, old, FRESH)
+        ren = observe(real, addr, rtext, ticks)
+        p.evaluations += 1
+        where = "%s rename %s" % (tname, old)
+        rrep = dict(rep, renamed_script=rtext, rename=[old, FRESH])
+        if ren[0] != "ok":
+            p.violation("%s|build-outcome-depends-on-name" % tag, where, "`%s`: after renaming %s the build is refused: %s" % (line, old, ren[3]), rrep)
+            continue
+        exp_refs = dict((k, rename_path(v[0], old, FRESH)) for k, v in orig[1].items())
+        got_refs = dict((k, v[0]) for k, v in ren[1].items())
+        if exp_refs != got_refs:
+            diff = [(k, orig[1].get(k, ("-",))[0], exp_refs.get(k), got_refs.get(k))
+                    for k in sorted(set(exp_refs) | set(got_refs)) if exp_refs.get(k) != got_refs.get(k)]
+            k, o, e, g = diff[0]
+            p.violation("%s|renamed-map-differs" % tag, where,
+                        "`%s`: renaming %s -> %s: reference %s resolved to %s before, expected %s after, got %s" % (line, old, FRESH, k, o, e, g),
+                        dict(rrep, differences=diff[:8]))
+            continue
+        exp_names = sorted(rename_path(n, old, FRESH) for n in orig[2])
+        if exp_names != ren[2]:
+            x, y = set(exp_names), set(ren[2])
+            p.violation("%s|renamed-store-differs" % tag, where, "`%s`: renaming %s: store shares missing %s, unexpected %s" % (
+                line, old, sorted(x - y)[:4], sorted(y - x)[:4]), dict(rrep, missing=sorted(x - y), unexpected=sorted(y - x)))
+            continue
+        p.outcome("nested rename: %s" % ("leaf path renamed" if rename_path(mine[0], old, FRESH) != mine[0] else "leaf path unaffected"))
+    if (len(p.keys) % 29) == 1:
+        p.sample(dict(tags=tname, line=line, leaf=mine[0], main=target[0]))
+
+
 BASE = {}
 
 
@@ -798,9 +917,12 @@ def work(arg):
     elif kind == "insular":
         for case in insular_cases(tier)[start:stop]:
             check_insular(real, addr, p, case)
-    else:
+    elif kind == "actor":
         for case in actor_cases(tier)[start:stop]:
             check_actor(real, addr, p, case)
+    else:
+        for case in nested_cases(tier)[start:stop]:
+            check_nested(real, addr, p, case)
     return p
 
 
@@ -860,6 +982,13 @@ def replay(path):
                     hit = "insular"
                     break
         if hit is None:
+            for case in nested_cases("thorough"):
+                r = case[2][1].replace("y", "yn") if case[1][0] == "do-via" else case[2][1]
+                if nested_program(case[0][1], case[0][2], case[0][3], case[1][1].replace("{REF}", r)) == script:
+                    check_nested(real, addr, p, case)
+                    hit = "insular"
+                    break
+        if hit is None:
             for case in actor_cases("thorough"):
                 if actor_program(case[1], case[2], case[4][1]) == script:
                     check_actor(real, addr, p, case)
@@ -894,8 +1023,11 @@ def run():
     items += [("insular", i, i + CHUNK, core.TIER) for i in range(0, len(ci), CHUNK)]
     ca = actor_cases(core.TIER)
     items += [("actor", i, i + 5, core.TIER) for i in range(0, len(ca), 5)]
+    cn = nested_cases(core.TIER)
+    items += [("nested", i, i + 30, core.TIER) for i in range(0, len(cn), 30)]
     ck.merge(core.pmap(work, items))
-    ck.coverage_extra = dict(programs=len(cs), renamings_per_program=len(ENTITIES), collision_programs=len(cc), insular_programs=len(ci), actor_name_programs=len(ca),
+    ck.coverage_extra = dict(programs=len(cs), renamings_per_program=len(ENTITIES), collision_programs=len(cc), insular_programs=len(ci), actor_name_programs=len(ca), nested_clone_programs=len(cn),
+                             nested_clone_tags=[t[0] for t in NTAGS], nested_clone_forms=[f[1] for f in NFORMS],
                              actor_name_triples=[(t[0], t[2]) for t in ATRIPLES], actor_name_clauses=[c[0] for c in ACLAUSES],
                              insular_name_pairs=[x[:3] for x in IPAIRS], insular_clone_orders=[x[0] for x in ISEQS],
                              collision_patterns=[x[0] for x in PATTERNS], collision_lines=[x[0] for x in CLINES],
